@@ -49,6 +49,14 @@ def main(tier_):
                         cases.append(dict(id="c08|%s|%s|%s|%s|%s|%s" % (hname, "root" if priv else "unpriv", ctor, base, path, opn[0]), tree=[], feat={"openat2": True}, trace=True, raw=True,
                                           cold=True, procmount=opts if hname != "default" else None, timeout=60, calls=calls,
                                           meta=dict(host=hname, priv=priv, ctor=ctor, base=base, path=path, pathkind=pk, op=opn[0])))
+                        if priv and hname in ("subsetpid", "hidepid2") and ctor != "hostfd":
+                            # a privileged caller that cannot create NEW procfs instances (fsopen/fsmount refused): its private handles
+                            # are open_tree clones of the host mount (every clone is a new mount, as masked as the host), or -- without
+                            # the new mount API altogether -- the host mount itself
+                            for fname, feat in (("nofsopen", {"openat2": True, "fsopen": False}), ("oldmount", {"openat2": False, "newmount": False})):
+                                cases.append(dict(id="c08f|%s|%s|%s|%s|%s|%s" % (hname, fname, ctor, base, path, opn[0]), tree=[], feat=feat, trace=True, raw=True,
+                                                  cold=True, procmount=opts, timeout=60, calls=calls,
+                                                  meta=dict(host=hname, priv=priv, ctor=ctor, base=base, path=path, pathkind=pk, op=opn[0], nofsopen=fname)))
                         if pk != "missing":
                             # history: the same lookup after a lookup of a missing entry on the same handle -- the model's
                             # outcome is a function of (handle, host, privilege, path) only, so an earlier ENOENT must not matter
@@ -59,6 +67,8 @@ def main(tier_):
     if tier_ == "quick":
         rnd = random.Random(seed())
         # the unprivileged / masked combinations are where the retry logic lives: keep all of those, sample the rest
+        nof = [c for c in cases if c["meta"].get("nofsopen")]
+        cases = [c for c in cases if not c["meta"].get("nofsopen")]
         hot = [c for c in cases if not c["meta"]["priv"] or c["meta"]["host"] == "subsetpid"]
         rest = [c for c in cases if c not in hot]
         rnd.shuffle(hot)
@@ -66,7 +76,8 @@ def main(tier_):
         hist = [c for c in hot + rest if c["meta"].get("history")]
         hot = [c for c in hot if not c["meta"].get("history")]
         rest = [c for c in rest if not c["meta"].get("history")]
-        cases = hot[:260] + rest[:80] + hist[:200]
+        rnd.shuffle(nof)
+        cases = hot[:260] + rest[:80] + hist[:200] + [c for c in nof if c["meta"]["pathkind"] == "missing"][:60] + [c for c in nof if c["meta"]["pathkind"] != "missing"][:40]
     for c in cases:
         if c.get("procmount") is None:
             c.pop("procmount")
@@ -100,7 +111,7 @@ def main(tier_):
         pk = m["pathkind"]
         # what "exists" means for this caller: entries of other processes are legitimately hidden by hidepid for an unprivileged caller
         if pk == "maskedpath":
-            hidden_for_caller = (not m["priv"] and m["host"] in ("hidepid1", "hidepid2", "ptraceable") and m["path"].startswith("1/")) or (m["host"] == "subsetpid" and (not m["priv"] or m["ctor"] == "hostfd"))
+            hidden_for_caller = (not m["priv"] and m["host"] in ("hidepid1", "hidepid2", "ptraceable") and m["path"].startswith("1/")) or (m["host"] == "subsetpid" and (not m["priv"] or m["ctor"] == "hostfd" or m.get("nofsopen")))
             pk = "other" if hidden_for_caller else "existing"
         if m["op"] == "proc_readlink" and pk == "existing" and m["path"] != "mounts":
             pk = "other"     # readlink of a non-link legitimately reports ENOENT
@@ -114,7 +125,7 @@ def main(tier_):
         c = by.get(b["case"], {})
         m = c.get("meta", {})
         v.violation(dict(check="proc-retry", what=b["what"], host=m.get("host"), priv=m.get("priv"), ctor=m.get("ctor"), op=m.get("op"), path=m.get("path"), history=m.get("history")),
-                    "C08: %s -- %s(%s, %r)%s via %s on /proc[%s] as %s: outcome %s, %d procfs handles, peak %d descriptors, %d syscalls" % (
+                    "C08: %s -- %s(%s, %r)%s via %s on /proc[%s] as %s" + (" without fsopen [%s]" % m.get("nofsopen") if m.get("nofsopen") else "") + ": outcome %s, %d procfs handles, peak %d descriptors, %d syscalls" % (
                         b["what"], m.get("op"), m.get("base"), m.get("path"), " after a lookup of a missing entry on the same handle" if m.get("history") else "", m.get("ctor"), m.get("host"), "root" if m.get("priv") else "unprivileged", b["outcome"], b["handles"], b["peak"], b["nsys"]), c)
     rc = v.finish()
     samples = [r for r in recs if r["handles"] > 1][:3] + recs[:2]
